@@ -5,7 +5,7 @@ import os
 import re
 import time
 
-from vlib import common as C, kani_run as K, layerc as LC, verus_check as V
+from vlib import sweep as SW, common as C, kani_run as K, layerc as LC, verus_check as V
 from corpus import defs as D
 
 TAG_RE = re.compile(r"\[((?:C\d\d ?)+)\]")
@@ -196,6 +196,51 @@ def main(prop, cfg):
     # ---------------- layer C results
     l2, n2, u2, samples, c_ok = judge_layer_c(prop, crows)
     lines += l2; notes += n2; undecided += u2; violations += len(l2)
+    # ---------------- native sweep of the same step contract (bounded stand-in by execution; seeded random definitions + this property's corpus)
+    sweep_cov = {}
+    if cfg.get("sweep", True) and cfg.get("layer_c", True):
+        from corpus import random_defs as RD
+        thorough = C.TIER == "thorough"
+        n_rand = int(os.environ.get("VERIF_SWEEP_DEFS", "400" if thorough else "60"))
+        maxlen = 6 if thorough else 5
+        rdefs = [d for d in RD.make(1000 + C.SEED, n_rand) if prop in d["props"]]
+        cdefs = [d for d in D.by_prop(prop, "thorough") if d.get("form", "step") == "step" and not d.get("via")]
+        try:
+            srows = SW.run(cdefs + rdefs, prop.lower(), 6, 4, maxlen)
+        except Exception as e:  # noqa
+            srows = []
+            undecided.append("native sweep: %s" % e)
+        s_ok = s_cases = 0
+        for row in srows:
+            d = row["def"]
+            if row["status"] == "ok":
+                s_ok += 1
+                s_cases += row["cases"]
+                continue
+            if row["status"] == "undecided":
+                undecided.append("native sweep %s: %s" % (d["name"], row.get("reason", "")[-300:]))
+                continue
+            f = row["fail"]
+            primary = d["name"].startswith(prop.lower() + "_")
+            if not (primary or prop in tags_of(f["msg"])):
+                notes.append("NOTE native sweep %s: failed check outside this property: %s" % (d["name"], f["msg"][:160]))
+                continue
+            chars = "".join(chr(x) if 0x20 <= x < 0x7f else "\\u{%x}" % x for x in f["a"][:f["n"]])
+            ob = "sweep:%s::step [%s]" % (d["name"], f["msg"][:200])
+            body = ["native sweep of the step contract on the macro-expanded lexer of the snapshot (crate built natively against the snapshot)",
+                    "definition %s%s" % (d["name"], " (generated by corpus/random_defs.py, seed %d)" % (1000 + C.SEED) if d["name"].startswith("rnd_") else ""), "", LC.G.lexer_text(d), "",
+                    "failing input: remaining input %r, rule set index %d, done flag %d, base location %s" % (chars, f["rs0"], f["done0"], f["base"]),
+                    "failed assertion: " + f["msg"], "", "---- replay on the real code ----", SW.replay(row)]
+            path = C.write_replay(prop, ob, "\n".join(body))
+            lines.append("VIOLATION property=%s replay=%s obligation=%s" % (prop, path, re.sub(r"\s+", "_", ob)[:200]))
+            violations += 1
+        sweep_cov = {"native_sweep": {"definitions": len(srows), "passed": s_ok, "step_contract_evaluations": s_cases, "random_definitions": len(rdefs), "seed": 1000 + C.SEED,
+                                      "bounds": "every string of length <= %d over the definition's alphabet (its first five literal characters / range end points, one unrelated character, newline); every rule set; "
+                                                "both values of the end-of-input flag; base location (3,5,17); calls handling more than 4 lexemes skipped" % maxlen,
+                                      "kind": "bounded stand-in by execution of the real generated code against the generated reference (never counted as proved)"}}
+        sweep_decided = s_ok
+    else:
+        sweep_decided = 0
     # ---------------- optional extra part
     extra_cov = {}
     if cfg.get("extra"):
@@ -258,6 +303,7 @@ def main(prop, cfg):
                         scan[pat.replace("\\", "")]["distinct_lines"].append(h)
     cov["assumption_scan"] = scan
     cov.update(extra_cov)
+    cov.update(sweep_cov)
     rc = C.EXIT_OK
     if violations:
         rc = C.EXIT_VIOLATION
@@ -267,13 +313,15 @@ def main(prop, cfg):
         C.say(n)
     for u in undecided:
         C.say("UNDECIDED " + u)
-    rc = C.settle(rc, c_ok + sum(1 for r in brows if r["result"]["status"] == "ok") + (vsum["discharged"] if vsum else 0))
+    rc = C.settle(rc, c_ok + sweep_decided + sum(1 for r in brows if r["result"]["status"] == "ok") + (vsum["discharged"] if vsum else 0))
     C.write_evidence(prop, cfg.get("level", "model_checking"), cov, cfg.get("assumptions", []) + (["UNDECIDED: " + u for u in undecided]), time.time() - t0, violations)
     for ln in lines:
         C.say(ln)
-    C.say("%s: layer B %d/%d harnesses ok, layer C %d/%d definitions ok%s, %.1fs, exit %d" % (
+    C.say("%s: layer B %d/%d harnesses ok, layer C %d/%d definitions ok%s%s, %.1fs, exit %d" % (
         prop, sum(1 for r in brows if r["result"]["status"] == "ok"), len(brows), c_ok, len(crows),
-        (", verus %d/%d" % (vsum["discharged"], vsum["obligations"])) if vsum else "", time.time() - t0, rc))
+        (", verus %d/%d" % (vsum["discharged"], vsum["obligations"])) if vsum else "",
+        (", native sweep %d/%d definitions (%d evaluations)" % (sweep_cov["native_sweep"]["passed"], sweep_cov["native_sweep"]["definitions"], sweep_cov["native_sweep"]["step_contract_evaluations"])) if sweep_cov else "",
+        time.time() - t0, rc))
     return rc
 
 
